@@ -327,13 +327,13 @@ NOT_YET = {}
 E1 = "vsched"
 MANIFEST_TEXT = {
     "C01": {"engine": E1, "technique": "stateless model checking of the implementation: preemption-bounded DFS over all interleavings with happens-before state caching",
-            "level": "Every interleaving (up to the stated preemption bound) of closed client programs against the real Service under a controlled scheduler; a per-group occupancy monitor is evaluated on every execution.",
+            "level": "Every interleaving (up to the stated preemption bound) of closed client programs against the real Service under a controlled scheduler; a per-group occupancy monitor is evaluated on every execution. Programs: concurrent requests and With/WithGroup/WithResource producers on shared and distinct groups, idle-to-busy transitions, nested submissions from inside a callback, a full work buffer, query requests / expiry against a callback of the same group, expiry while Shutdown drains the group, and the same after a Shutdown / Serve cycle that dropped queued work; 11 configurations (worker count, in-channel size, group template, mount depth).",
             "note": "Scheduling points are the sync/atomic/channel/timer operations of go-res, timerqueue, taskqueue, keylock and harness emits; plain memory accesses are covered by C16; programs are the enumerated scenarios x configurations."},
     "C02": {"engine": E1, "technique": "stateless model checking of the implementation: preemption-bounded DFS over all interleavings with happens-before state caching",
             "level": "Same exploration as C01 with an exactly-once / submission-order oracle evaluated at quiescence on every execution.",
             "note": "Same trusted base as C01; order is required only between submissions ordered by happens-before in the scenario."},
     "C03": {"engine": E1, "technique": "stateless model checking of the implementation: preemption-bounded DFS, deadlock detection on every schedule",
-            "level": "Every interleaving (up to the bound) of Shutdown against With calls, deliveries, publishing API calls, a running callback, subscription failure and restart; deadlock, panics, worker survival, callback-after-return and Close count are checked on every execution. In addition every life-cycle sequence of <=5 (6) operations {Serve, failing Serve, refused ListenAndServe, Shutdown, probe request, With} is compared step by step with the {stopped, started} reference machine (explicit-state, 11 699 sequences).",
+            "level": "Every interleaving (up to the bound) of Shutdown against With calls, deliveries, publishing API calls, a running callback, subscription failure and restart; deadlock, panics, worker survival, callback-after-return and Close count are checked on every execution; further programs: two concurrent Shutdown calls, two concurrent Serve calls, Shutdown / With / Reset / TokenEvent racing with the start-up of Serve, an in-flight callback that starts a query event, restart after queued work was dropped (callbacks and requests accepted by the restarted service must be served exactly once). In addition every life-cycle sequence of <=5 (6) operations {Serve, failing Serve, refused ListenAndServe, Shutdown, probe request, With} is compared step by step with the {stopped, started} reference machine (explicit-state, 11 699 sequences).",
             "note": "Shutdown is called from outside callbacks; the in-memory connection models NATS delivery; nil-dereference windows between non-visible operations are the domain of C16."},
     "C04": {"engine": "seq", "technique": "bounded-exhaustive enumeration of handler scripts x request kinds x registrations x payloads on the real service under the scheduler (exact quiescence)",
             "level": "Every request kind, registration shape, payload and handler behaviour script up to the length bound runs on a fresh real service; the number of responses is counted after exact quiescence and a probe request checks liveness.",
@@ -354,13 +354,13 @@ MANIFEST_TEXT = {
             "level": "All ordered pairs of collections of length <=4 over three values (14 641 pairs), of richer collections and of models over three keys, plus mutation histories of length <=3 over two ids, for 24 handler configurations (type x transformer x default); each mutation runs through mockstore, OnChange, the store handler's diff and the real Service; the events are applied to the pre-mutation get by a strict reference client (indexes must be in range, no-op changes rejected) and the result must equal a fresh get. In addition (beyond the property's quantifier) scenario SH1 explores every interleaving, up to the preemption bound, of foreign store writers, a fetching client and the change handler on mockstore and badgerstore: the client that takes the get reply at its place in the publish order and applies the later events must equal a fresh get.",
             "note": "Quick tier uses the full pair sets for the IDTransformer configuration and reduced sets for the others."},
     "C11": {"engine": E1, "technique": "bounded-exhaustive operation histories against a map model + stateless model checking of 2-3 contending threads with a porcupine linearizability check on every execution",
-            "level": "Sequential: every well-formed history up to the depth bound for mockstore and four badgerstore configurations, compared step by step with a Go map and the expected callback list. Concurrent: every interleaving (preemption bound 2, 3 thorough) of three small transaction programs on colliding ids; each execution's call/return history is checked with porcupine against a per-id register model, plus a lock-exclusion monitor, callback thread/count/chain checks and the final content.",
+            "level": "Sequential: every well-formed history up to the depth bound for mockstore and four badgerstore configurations, compared step by step with a Go map and the expected callback list. Concurrent: every interleaving (preemption bound 2, 3 thorough) of three small transaction programs on colliding ids; each execution's call/return history is checked with porcupine against a per-id register model, plus a lock-exclusion monitor, callback thread/count/chain checks and the final content; a fourth program runs two badgerstore handles on one database, so that commits fail with transaction conflicts (a failed operation must run no change callback).",
             "note": "BadgerDB internals run uninstrumented; binary-marshalled value types are not exercised (see DESIGN.md)."},
     "C12": {"engine": "crashx", "technique": "exhaustive crash-image enumeration of recorded write histories: every syscall-boundary prefix and torn-write cut of each workload's strace log is materialised, reopened with the real BadgerDB and judged against the acknowledgement log",
             "level": "Sixteen recorded runs (4 workloads x prefix set/empty x with/without QueryStore) of the real badgerstore; for every prefix of the recorded file-operation log and every torn cut (1, n/2, n-1 bytes; every byte in the thorough tier) of every value-log write, the image is reopened and checked: content equals the acknowledged state or that with the in-flight call applied, a further Init seeds exactly once, and after RebuildIndexes every index query equals a scan of the stored values.",
             "note": "One recorded history per configuration (not all histories); kill points are all syscall boundaries of that history plus torn value-log writes (a torn MANIFEST or SST write cannot result from a process kill and makes BadgerDB itself refuse to open)."},
     "C13": {"engine": "seq", "technique": "bounded-exhaustive mutation histories on the real badgerstore + QueryStore under the scheduler, every query compared with a sorted/filtered/windowed scan of a model map; Flush race explored by the scheduler",
-            "level": "Every mutation history up to the depth bound over 3 ids and 8 key vectors (two indexes, nil keys), with and without store prefix; 16 basic queries after every history and the full 1344-query set on every distinct content of depth<=2, compared with the reference scan; plus an interleaving exploration of mutations racing with Flush and Query.",
+            "level": "Every mutation history up to the depth bound over 3 ids and 10 key vectors (two indexes, nil and empty keys), including two mutations inside one write transaction, with and without store prefix; 16 basic queries after every history and the full 1344-query set on every distinct content of depth<=2, compared with the reference scan; plus an interleaving exploration of mutations racing with Flush and Query.",
             "note": "taskqueue is a scheduler object; BadgerDB runs uninstrumented."},
     "C14": {"engine": "seq", "technique": "same enumeration as C13 with a callback oracle: OnQueryChange count per mutation, query results inside the callback, Events() against before/after reference results",
             "level": "For every mutation of every enumerated history: query-change callbacks fire exactly once iff an index key changed and after the index reflects it (queries issued inside the callback equal the post-state reference), Events reports affected whenever the reference result differs and unaffected when neither key matches; the QueryHandler path is run on a real Service for ordinary and query resources.",
@@ -369,7 +369,7 @@ MANIFEST_TEXT = {
             "level": "Every sequence of <=4 (5 thorough) events over the model / collection event alphabets for 16 configurations (package x type x typed x default x index set): after each event the get response, Value(), the published event and the listener's old values / deleted data are compared with a reference fold; inapplicable events must publish nothing and leave storage unchanged; the database is closed and reopened and compared with the fold.",
             "note": "Events are emitted from With callbacks of a real Service under the scheduler; the database is reopened after every 25th sequence."},
     "C15": {"engine": E1, "technique": "stateless model checking of the implementation with a virtual clock: preemption-bounded DFS over interleavings of query requests, expiry and callbacks",
-            "level": "Every interleaving (up to the bound) of a query event with 0-2 requesters (valid, empty, missing and malformed queries), every callback behaviour, subscription failure, a concurrent callback of the same group and a chain of three events; the timer fires at any point; responses, nil-call count/order, group serialisation and released resources are checked on every execution.",
+            "level": "Every interleaving (up to the bound) of a query event with 0-2 requesters (valid, empty, missing and malformed queries), every callback behaviour, subscription failure, a concurrent callback of the same group, a chain of three events, Shutdown while the event is active (with the group idle or busy) and an event that outlives a Shutdown / Serve cycle; the timer fires at any point; responses, nil-call count/order, group serialisation and released resources are checked on every execution.",
             "note": "The in-memory connection models acceptance/arrival of messages separately; inbox names are canonicalised."},
     "C19": {"engine": E1, "technique": "explicit-state reference model of SendRequest/environment/clock + stateless exploration of the real SendRequest under the controlled scheduler for every environment script; observed outcomes must be model outcomes",
             "level": "For every environment script up to the length bound and every connection fault, all interleavings (preemption bound 2) of the real SendRequest, the scripted environment and the virtual clock are executed; each observed (response class, extension callbacks) pair must be allowed by a nondeterministic reference model explored exhaustively, and the inbox subscription must be released on every path.",
@@ -378,7 +378,7 @@ MANIFEST_TEXT = {
             "level": "Every configuration in the enumerated space is served on a connection that enforces subject validity; subscriptions, queue groups and the three system.reset payloads (start, ResetAll, reconnect path) are compared with the reference ownership for every request subject over names of <=3 tokens.",
             "note": "No differential against a real nats-server (that would be sampling a network stack); the subject rule mirrors nats.go's badSubject."},
     "C16": {"engine": E1, "technique": "stateless model checking under the race detector: every explored schedule of the concurrency scenarios is checked for unsynchronised conflicting accesses",
-            "level": "The scenarios of C01/C02/C03/C15 (plus logger and store scenarios) are explored exhaustively up to the preemption bound in a -race build in which the scheduler's hand-offs are hidden from the detector, so each schedule is checked for accesses unordered by go-res's own synchronisation, including the deliberately unsynchronised per-group scratch memory of the harness callbacks.",
+            "level": "The scenarios of C01/C02/C03/C15 (plus logger, store, index and store-handler scenarios) are explored exhaustively up to the preemption bound in a -race build in which the scheduler's hand-offs are hidden from the detector, so each schedule is checked for accesses unordered by go-res's own synchronisation, including the deliberately unsynchronised per-group scratch memory of the harness callbacks.",
             "note": "Exhaustive within the preemption bound and the scenario set, not over all programs; the in-memory connection has an internal mutex like nats.Conn."},
     "C17": {"engine": "seq", "technique": "bounded-exhaustive enumeration of pattern and name strings over the special-character alphabet against a tokenising reference",
             "level": "Every pattern string of <=5 (6 thorough) characters over 8 symbols against every name of <=5 characters over 5 symbols, all pattern/pattern cover pairs, parts, resource ids, method/event argument checks, tag maps and the id-transformer round trip.",
